@@ -263,6 +263,46 @@ def c06(payload):
                 w1 = gen.wire(k, w['p1'], mid, w['r']); w2 = gen.wire(w['nseg'] - k, mid, w['p2'], w['r'])
                 ss['wires'][i:i + 1] = [w1, w2]
                 cmp(solve(ss), 'splitting wire %d after segment %d' % (i, k))
+            # (d) the same conductors with skin-effect loads on some of them (each with its own conductivity): the description
+            #     (order, direction of the wires, order of the load options) still does not matter
+            if len(spec['wires']) >= 2 and not r['features']['exact_kernel_applied_off_axis']:       # (there the unloaded antenna already depends on the order)
+                for i_, w in enumerate(spec['wires']): w['_id'] = i_
+                sub = spec.get('loaded') or rng.sample(range(len(spec['wires'])), rng.randint(1, len(spec['wires']) - 1))
+                sig = {i_: (1e5 if spec.get('loaded') else 10 ** rng.uniform(3.5, 7.5)) for i_ in sub}
+                def solve_loaded(sp):
+                    lds = [dict(kind='skin', tag=pos + 1, cond=sig[w['_id']]) for pos, w in enumerate(sp['wires']) if w['_id'] in sig]
+                    rng.shuffle(lds)
+                    mm = gen.build(dict(sp, sources=[], loads=[]))
+                    cand = [p for p in mm.pulses if np.linalg.norm(np.array(p.point, dtype=float) - fpt) < 1e-6 * (1 + np.abs(fpt).max())]
+                    assert len(cand) == 1, 'feed point not unique'
+                    p = cand[0]
+                    sgn = 1.0 if np.dot(np.array(p.segs[0].dirvec, dtype=float), fdir) > 0 else -1.0
+                    sp2 = copy.deepcopy(sp); sp2['sources'] = [dict(pulse=int(p.idx), tag=None, v=[sgn, 0.0])]; sp2['loads'] = lds
+                    mm = gen.build(sp2); mm.compute()
+                    return mm
+                # junctions of three or more wire ends where some but not all of the wires are loaded: the end half-segment of
+                # the junction's owner is represented in every junction pulse (k - 1 times), so the loaded length depends on
+                # which wire is listed first (recorded finding C06-partial-load-at-multiwire-junction)
+                ends = [(w['_id'], np.array(w[k_], dtype=float)) for w in spec['wires'] for k_ in ('p1', 'p2')]
+                tolj = 1e-3 * min(s_.seg_len for g_ in m0.geo for s_ in g_.segments)
+                multi = False
+                for a_, (ia, pa_) in enumerate(ends):
+                    grp = {ib for ib, pb_ in ends if np.linalg.norm(pa_ - pb_) <= tolj}
+                    if len([1 for ib, pb_ in ends if np.linalg.norm(pa_ - pb_) <= tolj]) >= 3 and 0 < len(grp & set(sig)) < len(grp):
+                        multi = True
+                r['features']['partial_distributed_load_at_multiwire_junction'] = multi
+                AL = solve_loaded(spec); ZL = AL.sources[0].impedance
+                condl = float(np.linalg.cond(AL.Z)); toll = _tol(condl)
+                if toll is not None:
+                    srl = copy.deepcopy(spec)
+                    for w in srl['wires']:
+                        if rng.random() < 0.5 and not w.get('taper'):
+                            w['p1'], w['p2'] = w['p2'], w['p1']
+                    rng.shuffle(srl['wires'])
+                    ZB = solve_loaded(srl).sources[0].impedance
+                    if abs(ZB - ZL) > toll * abs(ZL):
+                        bad.append('with skin-effect loads on some conductors: reversing and reordering the wires changes the feed impedance %r -> %r (conductors %r, cond %.3g)'
+                                   % (ZL, ZB, sorted(sig), condl))
             r['bad'] = bad; r['cond'] = cond
         except AssertionError as e:
             r['skipped'] = True
